@@ -452,15 +452,22 @@ ACQUIRE_OPS = {'LockS': 'S', 'LockSIX': 'SIX', 'LockX': 'X', 'TryLockS': 'S', 'T
                'PrepareRead': 'S'}
 
 
-def prog_thread_ids(prog_line):
-    """(n, final_id, init_id) of a program line as the runtime numbers its virtual threads"""
-    toks = prog_line.split()
-    n = sum(1 for x in toks if x == '|')
-    has_final = '||' in toks
-    has_init = '|<' in toks
-    final_id = n + 1 if has_final else 0
-    init_id = (n + (2 if has_final else 1)) if has_init else 0
-    return n, final_id, init_id
+def prog_phases(prog_line):
+    """phase of each virtual thread (1-based list index = thread id) as the runtime assigns them"""
+    phases = []
+    phase = 1
+    for tok in prog_line.split():
+        if tok == '|<':
+            phase = 0
+            phases.append(phase)
+        elif tok == '|':
+            if phase == 0:
+                phase = 1
+            phases.append(phase)
+        elif tok == '||':
+            phase = 2 if phase < 2 else phase + 1
+            phases.append(phase)
+    return phases
 
 
 def hb_stream(ex, prog_line=None):
@@ -494,19 +501,17 @@ def hb_stream(ex, prog_line=None):
             t, s, m, lk = gsec.pop(g)
             out.append({'e': 'end', 't': t, 'sid': s, 'm': m, 'lk': lk})
 
-    n_thr, final_id, init_id = prog_thread_ids(prog_line) if prog_line else (0, 0, 0)
+    phases = prog_phases(prog_line) if prog_line else []
     for e in ex.events:
         k = e.get('e')
         t = e.get('t', 0)
         if t > 0 and t not in started and k in ('op', 'call', 'ret'):
             started.add(t)
-            if t == final_id:      # runs after every other thread was joined
-                for u in range(1, n_thr + 1):
-                    out.append({'e': 'sync', 't': t, 'u': u})
-                if init_id:
-                    out.append({'e': 'sync', 't': t, 'u': init_id})
-            elif init_id and t != init_id:   # started after the init thread finished
-                out.append({'e': 'sync', 't': t, 'u': init_id})
+            # a thread of a later phase starts after every thread of the earlier phases was joined
+            if t <= len(phases):
+                for u in range(1, len(phases) + 1):
+                    if phases[u - 1] < phases[t - 1]:
+                        out.append({'e': 'sync', 't': t, 'u': u})
         if k == 'op':
             kind = e['k']
             if kind == 'fence':
